@@ -404,3 +404,34 @@ Section GroupedProofs.
         rewrite !select_none by exact F. reflexivity.
   Qed.
 End GroupedProofs.
+
+(** ** nesting: both cut points are monotone in their date, so widening the calibration window
+    never drops a step (for any axis - sortedness is not needed) *)
+Lemma ss_left_mono a v v' : v <= v' -> ss_left a v <= ss_left a v'.
+Proof.
+  intros H. unfold ss_left. induction a as [|x r IH]; [reflexivity|]. cbn [filter].
+  destruct (Z.ltb_spec x v); destruct (Z.ltb_spec x v'); cbn [length]; lia.
+Qed.
+
+Lemma ss_right_mono a v v' : v <= v' -> ss_right a v <= ss_right a v'.
+Proof.
+  intros H. unfold ss_right. induction a as [|x r IH]; [reflexivity|]. cbn [filter].
+  destruct (Z.leb_spec x v); destruct (Z.leb_spec x v'); cbn [length]; lia.
+Qed.
+
+Lemma cal_indices_nested time b e b' e' :
+  b' <= b -> e <= e' ->
+  fst (cal_indices time b' e') <= fst (cal_indices time b e) /\
+  snd (cal_indices time b e) <= snd (cal_indices time b' e').
+Proof. intros Hb He. unfold cal_indices. cbn [fst snd]. split; [now apply ss_left_mono|now apply ss_right_mono]. Qed.
+
+Lemma filter_len_le {A} (f : A -> bool) l : (length (filter f l) <= length l)%nat.
+Proof. induction l as [|x r IH]; [reflexivity|]. cbn [filter]. destruct (f x); cbn [length]; lia. Qed.
+
+(** the cut points always lie on the axis: 0 <= first <= n, 0 <= last <= n *)
+Lemma cal_indices_range time b e :
+  0 <= fst (cal_indices time b e) <= Z.of_nat (length time) /\ 0 <= snd (cal_indices time b e) <= Z.of_nat (length time).
+Proof.
+  unfold cal_indices, ss_left, ss_right. cbn [fst snd].
+  pose proof (filter_len_le (fun x => x <? b) time). pose proof (filter_len_le (fun x => x <=? e) time). lia.
+Qed.
